@@ -7,6 +7,7 @@ Simulated histories come in four families (key "fam" of the history, ignored by 
   host : resolve_hostname + injected A/AAAA responses (cache-flush, two interfaces)
   ptr  : browse + injected PTR responses (several instances, flush bit, goodbyes, fresh copies)
   svc  : browse + one complete service (PTR, SRV, TXT, A), later fresh copies of parts of it
+  renew: interface check off, one record (set) renewed once or twice, observed timer-exactly
   mix  : svc + a hostname resolver for the service's host (address Vec refreshed by both)
   resp : registered services + injected queries with known answers (C10 responder side)
 """
@@ -134,6 +135,14 @@ def history(fam, hid, ifaces, steps, seed=3):
     return {"id": hid, "fam": fam, "t0": T0, "daemons": [{"seed": seed, "ifaces": ifaces}], "link": "none", "steps": steps}
 
 
+def maybe_ipcheck_off(rng, calls, p=0.5):
+    """With the default 5 s interface check the daemon wakes up every 5 s anyway, which hides a
+    missing record timer; half of the histories switch the check off."""
+    if rng.random() < p:
+        calls.append({"op": "set_ip_check_interval", "secs": 0})
+    return calls
+
+
 class Plan:
     """Builds the step list of a history: explicit steps (possibly skipping timers) and
     timer-exact runs; keeps explicit step times strictly after the preceding run."""
@@ -170,7 +179,7 @@ def gen_host(rng, hid):
     """resolve_hostname + address responses: cache-flush one-second rule, refresh once at 80 %,
     removal at expiry; shared (no flush bit) addresses appear as known answers."""
     pl = Plan()
-    pl.at(T0, calls=[{"op": "resolve_hostname", "host": HOST, "ch": "r"}])
+    pl.at(T0, calls=maybe_ipcheck_off(rng, [{"op": "resolve_hostname", "host": HOST, "ch": "r"}]))
     ips2 = ["192.168.1.%d" % k for k in (50, 51, 52)]
     ips3 = ["10.0.0.%d" % k for k in (50, 51)] + ["192.168.1.50"]
     t = T0
@@ -210,7 +219,7 @@ def gen_ptr(rng, hid):
     """browse + PTR responses: the 80/85/90/95 % ladder, restart by a fresh copy, goodbye,
     PTR with the flush bit, removal at expiry, known answers in every PTR query."""
     pl = Plan()
-    pl.at(T0, calls=[{"op": "browse", "ty": TY, "ch": "b"}])
+    pl.at(T0, calls=maybe_ipcheck_off(rng, [{"op": "browse", "ty": TY, "ch": "b"}]))
     t = T0
     maxttl = 1
     ifaces = rng.choice([IF_TWO, IF_ONE])
@@ -244,7 +253,7 @@ def gen_svc(rng, hid):
     schedules. The PTR never outlives the other records (what happens to a half-expired
     service is the subject of C05/C03)."""
     pl = Plan()
-    pl.at(T0, calls=[{"op": "browse", "ty": TY, "ch": "b"}])
+    pl.at(T0, calls=maybe_ipcheck_off(rng, [{"op": "browse", "ty": TY, "ch": "b"}]))
     t = T0 + rng.choice([50, 137, 600, 1200])
     p_ttl = rng.choice([2, 3, 5, 10, 20, 30])
     deltas = [rng.choice([0, 0, 1, 5, 20]) for _ in range(3)]
@@ -291,6 +300,39 @@ def gen_svc(rng, hid):
     return history("svc", hid, rng.choice([IF_ONE, IF_TWO]), pl.steps)
 
 
+def gen_renew(rng, hid):
+    """interface check off; records are RENEWED (same record received again) and then left alone,
+    observed timer-exactly: the 80/85/90/95 % queries and the expiry of the renewed record must
+    come from the record's own timers"""
+    kind = rng.choice(["ptr", "host", "svc"])
+    pl = Plan()
+    calls = [{"op": "set_ip_check_interval", "secs": 0}]
+    if kind == "host":
+        calls.append({"op": "resolve_hostname", "host": HOST, "ch": "r"})
+    else:
+        calls.append({"op": "browse", "ty": TY, "ch": "b"})
+    pl.at(T0, calls=calls)
+    ttl1 = rng.choice([3, 5, 10, 20])
+    ttl2 = rng.choice([7, 13, 20, 33, 47])
+
+    def records(ttl):
+        if kind == "ptr":
+            return [rec(TY, 12, ttl, ("P", inst_name(1)))]
+        if kind == "host":
+            return [rec(HOST, 1, ttl, ("A", ipaddress.ip_address("192.168.1.50").packed), flush=rng.random() < 0.7)]
+        return svc_records(rng, ttl, [0, 0, 0])
+    t = pl.at(T0 + rng.choice([37, 450, 1300]), dgrams=[dgram(2, response_hex(records(ttl1)))])
+    n = rng.choice([1, 1, 2])
+    for _ in range(n):
+        dt = rng.choice([ttl1 * 300, ttl1 * 700, ttl1 * 820, ttl1 * 910, ttl1 * 960])
+        if rng.random() < 0.7:
+            pl.run_until(t + dt - 1)
+        t = pl.at(t + dt, dgrams=[dgram(2, response_hex(records(ttl2)))])
+        ttl1 = ttl2
+    pl.run_until(t + ttl2 * 1000 + 2500)
+    return history("renew", hid, rng.choice([IF_ONE, IF_TWO]), pl.steps)
+
+
 def gen_mix(rng, hid):
     """a browsed service whose host name is also being resolved: the address Vec is refreshed
     by both mechanisms (ladder for the browse, once for the resolver)"""
@@ -302,9 +344,13 @@ def gen_mix(rng, hid):
 
 # ---- responder histories (C10)
 
-def resp_service(k):
-    return {"ty": TY, "name": "inst%d" % k, "host": "h%d.local." % k, "ips": "192.168.1.%d" % (10 + k), "port": 80 + k,
-            "props": [["61", "62"]], "probe": False}
+def sub_name(k):
+    return "_s%d._sub.%s" % (k, TY)
+
+
+def resp_service(k, with_sub=False):
+    return {"ty": sub_name(k) if with_sub else TY, "name": "inst%d" % k, "host": "h%d.local." % k,
+            "ips": "192.168.1.%d" % (10 + k), "port": 80 + k, "props": [["61", "62"]], "probe": False}
 
 
 def resp_records(k):
@@ -348,23 +394,33 @@ def mutate_ka(rng, r):
 
 def gen_resp(rng, hid):
     nsvc = rng.choice([1, 1, 2])
+    subs = {k: rng.random() < 0.6 for k in range(1, nsvc + 1)}
     pl = Plan()
-    pl.at(T0, calls=[{"op": "register", "svc": resp_service(k)} for k in range(1, nsvc + 1)])
+    pl.at(T0, calls=[{"op": "register", "svc": resp_service(k, subs[k])} for k in range(1, nsvc + 1)])
     pl.run_until(T0 + 3000)
     t = pl.at(T0 + 4000, dgrams=[dgram(2, query_hex([(TY, 12)], []), "192.168.1.99:5353")])
     recs = {k: resp_records(k) for k in range(1, nsvc + 1)}
     for _ in range(rng.choice([4, 6, 8])):
         k = rng.randrange(1, nsvc + 1)
-        form = rng.choice(["ptr", "ptr", "ptr", "srv", "txt", "a", "srv+txt", "any", "ptr+srv", "srv+a"])
+        form = rng.choice(["ptr", "ptr", "srv", "txt", "a", "srv+txt", "any", "ptr+srv", "srv+a", "ptr+txt", "ptr+txt",
+                           "ptr+a", "sub", "sub+txt"])
         inst, host = recs[k]["s"]["name"], recs[k]["a"]["name"]
         qs = {"ptr": [(TY, 12)], "srv": [(inst, 33)], "txt": [(inst, 16)], "a": [(host, 1)],
               "srv+txt": [(inst, 33), (inst, 16)], "any": [(inst, 255)], "ptr+srv": [(TY, 12), (inst, 33)],
-              "srv+a": [(inst, 33), (host, 1)]}[form]
+              "srv+a": [(inst, 33), (host, 1)], "ptr+txt": [(TY, 12), (inst, 16)], "ptr+a": [(TY, 12), (host, 1)],
+              "sub": [(sub_name(k), 12)], "sub+txt": [(sub_name(k), 12), (inst, 16)]}[form]
         kas = []
         pool = []
         for kk in range(1, nsvc + 1):
             pool += [recs[kk]["p"]] * 3 + [recs[kk]["s"], recs[kk]["t"], recs[kk]["a"]]
-        if form != "ptr":
+        if "ptr" in form or "sub" in form:
+            # the type PTR of every service listed above half, mostly unmutated
+            for kk in range(1, nsvc + 1):
+                if rng.random() < 0.7:
+                    ka = dict(recs[kk]["p"]) if rng.random() < 0.8 else mutate_ka(rng, recs[kk]["p"])
+                    ka["ttl"] = rng.choice([2251, 2251, 4500, 4500, 2250, U32 - 1])
+                    kas.append(ka)
+        else:
             pool += [recs[k]["s"], recs[k]["t"], recs[k]["a"]] * 2
         for _ in range(rng.choice([0, 1, 1, 2, 2, 3])):
             base = rng.choice(pool)
@@ -463,15 +519,39 @@ def project_cache(h, r):
     return "SIM " + (" | ".join(items) if items else "-")
 
 
+def due_times(recs, now):
+    """times at which a record received at `now` can need a wake-up of its own: its four refresh
+    marks, its expiry, and the one-second cache-flush expiry it may cause"""
+    out = set()
+    for r in recs:
+        ttl = max(1, r["ttl"])
+        for p in (800, 850, 900, 950, 1000):
+            out.add(now + ttl * p)
+        out.add(now + 1000)
+    return out
+
+
 def model_input_cache(h, r):
+    """The steps handed to the model: every loop iteration the daemon made (time, number of
+    browse / resolve (re)transmissions, received records) PLUS, inside timer-exact runs, one
+    step at every time a cached record's own timer is due at which the daemon did NOT iterate.
+    Such a step is a no-op for the model unless something is due then - in which case model and
+    specification prescribe an observation the daemon did not make (a missing timer)."""
     bch, ty = chan_of(h, "browse")
     hch, host = chan_of(h, "resolve_hostname")
-    steps = []
-    for st, it in iterations(h, r):
+    steps = []       # (now, order, text)
+    cand = set()
+    seen = set()
+    segs = []        # timer-exact segments (from, to]
+    prev = h.get("t0", T0)
+    k = 0
+    pairs = iterations(h, r)
+    for st, it in pairs:
         ev = it.get("events", {})
         nsb = sum(1 for e in ev.get(bch, []) if e.get("e") == "SearchStarted") if bch else 0
         nsh = sum(1 for e in ev.get(hch, []) if e.get("e") == "SearchStarted") if hch else 0
         recs = []
+        parsed = []
         for d in (st or {}).get("dgrams", []) or []:
             pk = g.parse_packet(bytes.fromhex(d["hex"]))
             if pk is None or not (pk["flags"] & 0x8000):
@@ -481,9 +561,25 @@ def model_input_cache(h, r):
                     rr = parsed_rr_to_rec(a)
                     if rr:
                         recs.append(rec_tok(rr, d["if"]))
-        steps.append("%d!%d!%d!%s" % (it["now"], nsb, nsh, "+".join(recs) if recs else "-"))
+                        parsed.append(rr)
+        cand |= due_times(parsed, it["now"])
+        seen.add(it["now"])
+        steps.append((it["now"], k, "%d!%d!%d!%s" % (it["now"], nsb, nsh, "+".join(recs) if recs else "-")))
+        k += 1
+    for st in h["steps"]:
+        if "run_until" in st:
+            segs.append((prev, st["run_until"]))
+            prev = st["run_until"]
+        elif isinstance(st.get("t"), int):
+            prev = max(prev, st["t"])
+    if not dead(r):
+        for t in sorted(cand - seen):
+            if any(a < t <= b for a, b in segs):
+                steps.append((t, -1, "%d!0!0!-" % t))
+    steps.sort(key=lambda x: (x[0], x[1] if x[1] >= 0 else -1))
+    # a virtual step sorts before a real iteration at a later time only; equal times cannot occur
     return "simc %s %s %s %s" % (hx(ty) if ty else "-", hx(host) if host else "-", ",".join(pairs_of(h)),
-                                 "|".join(steps) if steps else "-")
+                                 "|".join(x[2] for x in steps) if steps else "-")
 
 
 # --------------------------------------------------------------------------- responder family
@@ -546,7 +642,11 @@ def model_input_resp(h, r):
         if len(srv) != 1 or len(txt) != 1:
             return "BADINPUT baseline additionals"
         addrs = [a for a in adds if a and a["type"] in (1, 28) and a["name"] == srv[0]["rd"][1][3]]
-        svcs.append("+".join(rec_tok(x, 2) for x in [p, srv[0], txt[0]] + addrs))
+        sub = [a for a in adds if a and a["type"] == 12 and a["rd"][1] == alias]
+        if len(sub) > 1:
+            return "BADINPUT baseline subtype additionals"
+        svcs.append("+".join([rec_tok(p, 2), rec_tok(sub[0], 2) if sub else "~"] +
+                             [rec_tok(x, 2) for x in [srv[0], txt[0]] + addrs]))
     queries = []
     for st, it in qs:
         pkq = g.parse_packet(bytes.fromhex(st["dgrams"][0]["hex"]))
